@@ -161,6 +161,12 @@ func buildLayerStack(t *T, k int, ref hackpadfs.FS) *layerStack {
 		must(t, err)
 		ls.name, ls.family, ls.fs, ls.parts = "os.FS under no Sub root", "os", hos.NewFS(), []hackpadfs.FS{view}
 		ls.prefix, ls.snap = strings.TrimPrefix(dir, "/"), view
+		if t.C.Chance(1, 2) {
+			// the same file system reached through a view of "." (still no directory of its own)
+			dot, err := hos.NewFS().Sub(".")
+			must(t, err)
+			ls.name, ls.fs = "os.FS under Sub(\".\") only", dot
+		}
 	case lsOsSub0, lsOsSub2:
 		dir, cleanup := newScratch(t)
 		ls.cleanup = cleanup
